@@ -39,15 +39,38 @@ var c18Svcs = []string{"s0", "s1", "s2"}
 func c18GenOp(t *rapid.T) c18Op {
 	op := c18Op{Svc: rapid.SampledFrom(c18Svcs).Draw(t, "svc")}
 	op.Op = rapid.SampledFrom([]string{"deploy", "deploy", "rollout-deploy", "rollout-set", "rollout-stop", "pause", "stop", "resume", "remove", "list",
-		"request", "request", "request", "request", "flap", "wait", "getcert"}).Draw(t, "op")
+		"request", "request", "request", "request", "flap", "wait", "getcert", "deploy-bad", "rollout-deploy-bad"}).Draw(t, "op")
 	op.Target = rapid.IntRange(0, 3).Draw(t, "target")
 	switch op.Op {
 	case "request":
 		op.Kind = rapid.SampledFrom([]string{"plain", "cookie", "health", "slow", "upgrade", "post"}).Draw(t, "kind")
 	case "rollout-set", "flap":
 		op.Pct = rapid.IntRange(0, 100).Draw(t, "pct")
+	case "deploy":
+		op.Pct = rapid.IntRange(0, 15).Draw(t, "options") // bit set of target options, see c18TargetOptions
 	}
 	return op
+}
+
+// c18TargetOptions: bit 0 header logging (spelled non-canonically), bit 1 request and response buffering,
+// bit 2 forwarding headers, bit 3 a short target timeout.
+func c18TargetOptions(base TargetOptions, bits int) TargetOptions {
+	to := base
+	if bits&1 != 0 {
+		to.LogRequestHeaders = []string{"x-custom-in", "user-agent"}
+		to.LogResponseHeaders = []string{"x-vf-target", "content-type"}
+	}
+	if bits&2 != 0 {
+		to.BufferRequests, to.BufferResponses = true, true
+		to.MaxMemoryBufferSize = 1024
+	}
+	if bits&4 != 0 {
+		to.ForwardHeaders = true
+	}
+	if bits&8 != 0 {
+		to.ResponseTimeout = 200 * time.Millisecond
+	}
+	return to
 }
 
 func c18Gen(t *rapid.T) c18Plan {
@@ -72,7 +95,13 @@ func c18Run(t *testing.T, p c18Plan) (res vfResult) {
 		to := vfFastTargetOptions()
 		to.HealthCheckConfig.Interval = 100 * time.Millisecond
 		hosts := map[string]string{"s0": "s0.test", "s1": "s1.test", "s2": "s1.test"}
-		deploy := func(rt *Router, svc string, target int) error {
+		bad := []string{"bad0:80", "bad1:80", "bad2:80"}
+		for _, n := range bad {
+			w.target(n).setProbeScript(nil, vfProbeStep{Kind: "status", Status: 500})
+		}
+		deployOpt := func(rt *Router, svc string, target, bits int) error { return nil }
+		deploy := func(rt *Router, svc string, target int) error { return deployOpt(rt, svc, target, 0) }
+		deployOpt = func(rt *Router, svc string, target, bits int) error {
 			so := ServiceOptions{TLSRedirect: true}
 			if hosts[svc] != "" {
 				so.Hosts = []string{hosts[svc]}
@@ -88,7 +117,11 @@ func c18Run(t *testing.T, p c18Plan) (res vfResult) {
 			if target%2 == 1 {
 				targets = append(targets, vfActivePool[(target+1)%len(vfActivePool)])
 			}
-			return vfDeploy(rt, svc, targets, so, to, 2*time.Second, 300*time.Millisecond)
+			if bits < 0 {
+				// several targets that never become healthy: they all give up at the deploy timeout, at once
+				return vfDeploy(rt, svc, bad[:2+target%2], so, to, 150*time.Millisecond, 100*time.Millisecond)
+			}
+			return vfDeploy(rt, svc, targets, so, c18TargetOptions(to, bits), 2*time.Second, 300*time.Millisecond)
 		}
 		// a reachable starting state
 		deploy(r, "s0", 0)
@@ -110,7 +143,7 @@ func c18Run(t *testing.T, p c18Plan) (res vfResult) {
 		}
 		synctest.Wait()
 		front := w.front(r, "front:80")
-		_ = front
+		h := front.srv.Handler // the whole middleware chain (access logging reads the per-target header lists)
 		var mu sync.Mutex
 		var panics []string
 		var wg sync.WaitGroup
@@ -135,7 +168,11 @@ func c18Run(t *testing.T, p c18Plan) (res vfResult) {
 						mu.Unlock()
 						switch op.Op {
 						case "deploy":
-							deploy(r, op.Svc, op.Target)
+							deployOpt(r, op.Svc, op.Target, op.Pct)
+						case "deploy-bad":
+							deployOpt(r, op.Svc, op.Target, -1)
+						case "rollout-deploy-bad":
+							vfRolloutDeploy(r, op.Svc, bad[:2+op.Target%2], 150*time.Millisecond, 100*time.Millisecond)
 						case "rollout-deploy":
 							vfRolloutDeploy(r, op.Svc, []string{vfRolloutPool[op.Target%len(vfRolloutPool)]}, 2*time.Second, 300*time.Millisecond)
 						case "rollout-set":
@@ -202,7 +239,8 @@ func c18Run(t *testing.T, p c18Plan) (res vfResult) {
 								if op.Kind == "cookie" {
 									req.Header.Set("Cookie", RolloutCookieName+"=vip")
 								}
-								rp := w.do(r, req)
+								req.Header.Set("X-Custom-In", "v")
+								rp := w.do(h, req)
 								if rp.Panicked != "" && rp.Panicked != "abort" {
 									mu.Lock()
 									panics = append(panics, fmt.Sprintf("worker %d op %d %+v: request panicked: %s", wi, oi, op, rp.Panicked))
